@@ -90,7 +90,10 @@ def status_floor(ref, program):
     if (program.get("cfg") or {}).get("dry_run"):
         return {}
     floor = {}
+    faultless = not program.get("hook_faults") and not program.get("cleanups")
     for name, statuses in ref.steps.items():
+        if faultless and statuses and all(x in ("passed", "pending_warn") for x in statuses):
+            floor[name] = "passed"      # every step ran and passed, no hook / cleanup fault anywhere
         for x in statuses or []:
             # the first step with a problem decides (later undefined steps are only discovered)
             if x in ERROR_CLASS:
